@@ -33,7 +33,7 @@ PARAMS = {
     "Polyline": ["vertices", "current"], "Dipole": ["moment"],
 }
 FORMS = ["top", "method", "sensor", "lists", "src_coll", "sens_coll", "mixed_coll", "func_n", "func_single",
-         "func_nopose", "func_magnetization", "core", "dataframe", "polyline_segments", "sensor_path"]
+         "func_nopose", "func_magnetization", "core", "dataframe", "polyline_segments", "sensor_path", "func_inout"]
 
 
 def plan(tier):
@@ -208,7 +208,11 @@ def check_case(ctx, case):
                 rows = []
                 for s, o in zip(specs, O):
                     obj = objs.build(s)
-                    sens = magpy.Sensor(position=o)
+                    # a sensor that was never rotated; left-handed ones report -x (reference flipped below)
+                    left = form in ("sensor", "lists", "sens_coll", "mixed_coll") and int(round(abs(o[0]) * 1e6)) % 3 == 0
+                    sens = magpy.Sensor(position=o, handedness="left" if left else "right")
+                    if left:
+                        ctx.count("left_handed_unrotated_sensors")
                     if form == "top":
                         v = get(obj, o)
                     elif form == "method":
@@ -241,7 +245,7 @@ def check_case(ctx, case):
                         if not (ok and idx_ok and len(df) == 16):
                             ctx.violation({"kind": "dataframe", "cls": cls}, case, {"ratio": w, "idx_ok": idx_ok, "len": len(df)})
                         v = arr[0, 0, 0, 0]
-                    rows.append(np.asarray(v))
+                    rows.append(np.asarray(v) * (np.array([-1.0, 1.0, 1.0]) if left else 1.0))
                 got = np.array(rows)
             elif form in ("func_n", "func_single", "func_nopose", "func_magnetization"):
                 if cls not in PARAMS:
@@ -267,6 +271,19 @@ def check_case(ctx, case):
                 ref = reference(case)
                 got = np.asarray(get(cls, O if n > 1 or not case["squeeze"] else O, squeeze=False, **kw))
                 got = got.reshape(-1, 3)
+            elif form == "func_inout":
+                # in_out is honoured by the functional interface exactly as by the object interface
+                if cls not in ("Tetrahedron", "TriangularMesh") or F == "H":
+                    return
+                io = "inside" if int(round(abs(O[0][0]) * 1e6)) % 2 else "outside"
+                kw = func_kwargs(cls, specs, False)
+                kw["position"] = np.array([s["position"][0] for s in specs])
+                kw["orientation"] = R.from_quat([s["orientation"][0] for s in specs])
+                with quiet():
+                    ref = np.array([np.asarray(getattr(objs.build(s), "get" + F)(np.array(o), in_out=io))
+                                    for s, o in zip(specs, case["observers"])])
+                got = np.asarray(get(cls, O, squeeze=False, in_out=io, **kw)).reshape(-1, 3)
+                ctx.count("func_inout:" + io)
             elif form == "polyline_segments":
                 if cls != "Polyline":
                     return
